@@ -25,8 +25,8 @@ from ..match import canon
 
 BUILTINS = ["event_data", "machine", "event", "model", "transition", "state", "source", "target"]
 # ordinary user keyword names; the last five are also field names of the library's own event records
-# (TriggerData / EventData), which gives them no special status
-USER = ["x", "y", "z", "tok", "result", "executed", "is_initial", "trigger_data", "kwargs"]
+# (TriggerData / EventData), "key" is a parameter name of internal helpers: none of this gives them a special status
+USER = ["x", "y", "z", "tok", "result", "executed", "is_initial", "trigger_data", "kwargs", "key"]
 FREE = ["a", "b", "c", "d"]
 
 
